@@ -661,11 +661,27 @@ pub fn gen_case(seed: u64, shard: u64, run: u64, t: &Tier) -> Option<(Case, &'st
             break;
         }
     }
-    let from = from?;
+    let mut from = from?;
+    // coincidences: the start configuration already is the landing configuration
+    if w.chance(0.05) {
+        let b = oracle::brute_q(&oc, &q_land, &cell.safety);
+        if !b.any_definite() && !b.any_dont_care() {
+            from = q_land;
+        }
+    }
     let poses: Vec<[f64; 7]> = curve.iter().map(|q| pose_numbers(&stack.forward(q))).collect();
     let land = poses[0];
-    let park = poses[poses.len() - 1];
-    let steps = poses[1..poses.len() - 1].to_vec();
+    let mut park = poses[poses.len() - 1];
+    let mut steps = poses[1..poses.len() - 1].to_vec();
+    // coincidences: park where we landed; the same stroke pose twice in a row
+    if w.chance(0.05) {
+        park = land;
+    }
+    if !steps.is_empty() && w.chance(0.05) {
+        let k = w.below(steps.len());
+        let dup = steps[k];
+        steps.insert(k, dup);
+    }
     let mut cfgs = Vec::new();
     let rng_seed = simctx::mix(&[seed, shard, run, simctx::name_hash("c12.rng")]);
     let rrt_step = w.range_f64(1.0, 10.0f64).to_radians();
@@ -717,7 +733,7 @@ pub fn gen_case(seed: u64, shard: u64, run: u64, t: &Tier) -> Option<(Case, &'st
         recursion_depth: w.below(9),
         include_lin: w.chance(0.5),
         rrt_step,
-        rrt_max_try: *w.pick(&[1, 5, 30, 100, 300]),
+        rrt_max_try: *w.pick(&[0, 1, 5, 30, 100, 300, 300]),
         cfgs,
         coefficients: if w.chance(0.5) { Some(std::array::from_fn(|_| w.range_f64(0.2, 6.0))) } else { None },
         cfgs_other_rng: other,
@@ -748,6 +764,7 @@ pub fn run(tier_name: &str, seed: u64) -> i32 {
                 }
                 let c = &out.counters;
                 tally.bump("sched_steps", c.steps);
+                tally.max("max_sched_steps_in_one_execution", c.steps);
                 tally.bump("sched_branching_points", c.branching);
                 tally.max("max_runnable_tasks", c.max_runnable as u64);
                 tally.bump("random_draws", c.n_rng);
